@@ -106,7 +106,12 @@ def walk(case, want16, want17, stats=None):
                         bad16("unstash-delivered-while-not-running", "m_mod_unstash on module %d in state %s invoked the handler" % (m, state), r)
                     continue
                 if r.ret < 0:
-                    if r.ret != -11:       # token bucket
+                    oom = r.ret == -12 and r.fields.get("fault") == "1"     # injected allocation failure: a clean refusal
+                    if oom and stats is not None:
+                        stats["unstash_refused_for_lack_of_memory"] = stats.get("unstash_refused_for_lack_of_memory", 0) + 1
+                    if oom and inv:
+                        bad16("unstash-refused-but-delivered", "m_mod_unstash on module %d returned -ENOMEM but invoked the handler" % m, r)
+                    if r.ret != -11 and not oom:       # token bucket
                         bad16("unstash-refused", "m_mod_unstash(%d) on RUNNING module %d returned %d" % (n, m, r.ret), r)
                     if c.fields.get("taken"):
                         stash[m] = exp + stash.get(m, [])
@@ -129,7 +134,7 @@ def walk(case, want16, want17, stats=None):
                         bad17("become-accepted-while-not-running", "m_mod_become on module %d in state %s returned %d" % (m, state, r.ret), r)
                 elif r.ret == 0:
                     hstack.setdefault(m, []).append(c.args[1] & 3)
-                elif r.ret != -11:
+                elif r.ret != -11 and not (r.ret == -12 and r.fields.get("fault") == "1"):
                     bad17("become-refused", "m_mod_become on RUNNING module %d returned %d" % (m, r.ret), r)
                 if stats is not None:
                     stats["become_calls"] = stats.get("become_calls", 0) + 1
